@@ -168,7 +168,9 @@ def R3_every_response_once(ctx):
                     via_w = w.via if isinstance(w, VirtualCallSite) else w
                     via_r = r_.via if isinstance(r_, VirtualCallSite) else r_
                     for x in rows_:
-                        if x.kind == "back":
+                        # (a turn on which run_single_query itself fails has no response to write — it never does, C06.R5)
+                        failed_run = any(clean(dt_)[0] == "discr" and contains(clean(dt_), lambda q_: q_ == resp) and (l_ in ("Break", "Err")) for dt_, l_, _ in x.conds)
+                        if x.kind == "back" and not failed_run:
                             okl = okl and sum(1 for bb_, k_, v_ in x.sites if bb_ == via_w.bb) >= 1 and sum(1 for bb_, k_, v_ in x.sites if bb_ == via_r.bb) >= 1 and len([1 for bb_, k_, v_ in x.sites if k_ == via_w.callee]) == 1 and len([1 for bb_, k_, v_ in x.sites if k_ == via_r.callee]) == 1
                     okl = okl and innermost_loop(b, via_r.bb) == lp and outermost_loop(b, w.bb) == lp
                     ok = ok and okl
